@@ -400,9 +400,25 @@ ArgOpt == PlainFields \cup StencilFields \cup Operators \cup Scalars
 SeqsUpTo(S, n) == UNION { [1..k -> S] : k \in 1..n }
 \* (the families take the tier as a parameter so that TLC does not evaluate
 \* them when the module is only instantiated for Args)
-\* S1: every valid argument list of bounded length, no optional metadata
+\* S1: valid argument lists without optional metadata.  Core is a sub-cover of
+\* ArgOpt (every argument type, access, stencil family and space class once).
+\* quick: all single arguments and all pairs with at least one Core member;
+\* thorough: all pairs and all triples over Core.
+Core == { Fld("real", "inc", "w1", 1, "none"), Fld("real", "read", "w2", 1, "none"),
+          Fld("real", "readwrite", "w3", 1, "none"), Fld("real", "write", "wtheta", 3, "none"),
+          Fld("integer", "read", "w3", 1, "none"),
+          Fld("real", "read", "w2", 1, "xory1d"), Fld("real", "read", "w2", 1, "cross2d"),
+          Fld("real", "read", "w1", 3, "region"),
+          Op("read", "w0", "w1"), Op("readwrite", "w2", "w3"), Sc("real"), Sc("logical") }
 MaxLen(t) == IF t = "thorough" THEN 3 ELSE 2
-S1(t) == { Plain(a) : a \in SeqsUpTo(ArgOpt, MaxLen(t)) }
+S1(t) == { Plain(a) : a \in SeqsUpTo(ArgOpt, 1) }
+         \cup { Plain(a) : a \in { b \in [1..2 -> ArgOpt] :
+                                     t = "thorough" \/ b[1] \in Core \/ b[2] \in Core } }
+         \cup (IF t = "thorough" THEN { Plain(a) : a \in [1..3 -> Core] } ELSE {})
+         \* every ordered pair of stencil types next to one written field
+         \cup { Plain(<<Fld("real", "readwrite", "w3", 1, "none"),
+                        Fld("real", "read", "w2", 1, p[1]), Fld("real", "read", "w2", 1, p[2])>>) :
+                  p \in StencilTypes \X StencilTypes }
 
 \* S2: optional-metadata families over base argument lists
 B1 == << Fld("real", "inc", "w1", 1, "none"), Fld("real", "read", "w2", 1, "none") >>
@@ -416,22 +432,34 @@ Funcs1(b) == { <<[fs |-> f, ops |-> o]>> : f \in SpacesOf(b), o \in OpsChoices }
 Funcs2(b) == { <<[fs |-> f, ops |-> o], [fs |-> g, ops |-> p]>> :
                  f \in SpacesOf(b), g \in SpacesOf(b), o \in OpsChoices, p \in OpsChoices }
 Shapes == {"xyoz", "face", "edge", "evaluator"}
-ShapeSeqs == { s \in SeqsUpTo(Shapes, 2) : Len(s) = 2 => s[1] # s[2] }
-              \cup { <<"xyoz", "evaluator", "edge">>, <<"evaluator", "face", "xyoz">> }
+AllShapeSeqs == { s \in SeqsUpTo(Shapes, 2) : Len(s) = 2 => s[1] # s[2] }
+                \cup { <<"xyoz", "evaluator", "edge">>, <<"evaluator", "face", "xyoz">> }
+\* quick: every single shape, every pair with the evaluator, two quadrature
+\* pairs and the two triples
+ShapeSeqs(t) ==
+  IF t = "thorough" THEN AllShapeSeqs
+  ELSE { s \in AllShapeSeqs : Len(s) = 2 =>
+           \/ "evaluator" \in LRange(s)
+           \/ s \in {<<"xyoz", "face">>, <<"edge", "xyoz">>} }
 FewShapes == { <<"xyoz">>, <<"evaluator">>, <<"evaluator", "face">> }
+FewOps == { <<"basis">>, <<"diff", "basis">> }
 TargetChoices(t, b, sh) ==
   IF "evaluator" \in LRange(sh)
-  THEN {<<>>} \cup { tg \in { <<f, g>> : f \in SpacesOf(b), g \in SpacesOf(b) } :
-                        tg[1] # tg[2] }
+  THEN {<<>>}
+       \cup { tg \in { <<f, g>> : f \in SpacesOf(b), g \in SpacesOf(b) } :
+                 /\ tg[1] # tg[2]
+                 /\ t = "thorough" \/ tg[1] # UniqueSpaces(Plain(b))[1] }
        \cup (IF t = "thorough" THEN { <<f>> : f \in SpacesOf(b) } ELSE {})
   ELSE {<<>>}
 S2Q(t) ==
   UNION { { Md("cell_column", b, f, sh, tg, <<>>, <<>>) :
               f \in Funcs1(b), tg \in TargetChoices(t, b, sh) }
-          : b \in Bases(t), sh \in ShapeSeqs }
-  \cup UNION { { Md("cell_column", b, f, sh, <<>>, <<>>, <<>>) : f \in Funcs2(b) }
+          : b \in Bases(t), sh \in ShapeSeqs(t) }
+  \cup UNION { { Md("cell_column", b, f, sh, <<>>, <<>>, <<>>) :
+                   f \in { g \in Funcs2(b) : t = "thorough" \/
+                            (g[1].ops \in FewOps /\ g[2].ops \in FewOps) } }
                : b \in Bases(t),
-                 sh \in (IF t = "thorough" THEN ShapeSeqs ELSE FewShapes) }
+                 sh \in (IF t = "thorough" THEN AllShapeSeqs ELSE FewShapes) }
 RefelSeqs == {<<>>} \cup { s \in SeqsUpTo(RefProps, 2) : Len(s) = 2 => s[1] # s[2] }
 MeshSeqs == { <<>>, <<"adjacent_face">> }
 QFew(b) == { <<<<>>, <<>>>>,
@@ -466,10 +494,20 @@ CmaOpt(t) ==
          Fld("real", "readwrite", "w3", 1, "none"), Sc("real") }
   \cup (IF t = "thorough"
         THEN { Op("read", "w3", "w3"), Fld("real", "read", "w0", 1, "none") } ELSE {})
-S5(t) == { m \in { Plain(a) : a \in SeqsUpTo(CmaOpt(t), 3) } : HasCma(m) }
+S5(t) == { m \in { Plain(a) : a \in SeqsUpTo(CmaOpt(t), 3) } :
+             /\ HasCma(m)
+             /\ (t # "thorough" /\ Len(m.args) = 3) => CmaKind(m) # "matrix-matrix" }
+         \cup { Plain(<<Cma("write", "w0", "w3"), Cma("read", "w0", "w3"), Sc("real")>>),
+                Plain(<<Cma("read", "w3", "w3"), Sc("real"), Cma("write", "w0", "w3")>>) }
 
+\* a handful of metadata for demonstrations (mutants, replays)
 Smoke == { Plain(<<Fld("real", "inc", "w1", 1, "none")>>),
            Plain(<<Fld("real", "inc", "w1", 1, "none"), Fld("real", "read", "w2", 1, "xory1d")>>),
+           Plain(<<Fld("real", "readwrite", "w3", 1, "none"), Fld("real", "read", "w3", 3, "xory1d"),
+                   Fld("real", "read", "w2", 1, "cross2d")>>),
+           Plain(<<Op("readwrite", "w2", "w3"), Fld("real", "read", "w2", 1, "none"), Sc("logical")>>),
+           Md("cell_column", B1, <<[fs |-> "w1", ops |-> <<"basis", "diff">>]>>, <<"xyoz">>,
+              <<>>, <<>>, <<"adjacent_face">>),
            Md("cell_column", B2, <<[fs |-> "w0", ops |-> <<"basis">>]>>, <<"evaluator", "face">>,
               <<>>, <<"normals_to_horizontal_faces">>, <<>>) }
 
